@@ -71,6 +71,7 @@ impl Property for C18 {
             ("feature:block flags: reserved bits", 10_000 * k),
             ("feature:stream padding", 5000 * k),
             ("feature:second stream / padding + stream", 5000 * k),
+            ("trailing data through a fragmented reader", 20_000 * k),
         ]
     }
 
@@ -159,7 +160,34 @@ impl Property for C18 {
             if nblocks > 0 {
                 st.nontrivial(&(fh, &m));
             }
-            let r = sut::xz_decompress(&mf.bytes, &ReaderKind::Slice, &io);
+            // data after the first stream must be noticed however the reader fragments it
+            let flen = file.bytes.len();
+            let readers: Vec<ReaderKind> = if matches!(m, Mut::Trailing(_)) {
+                let mut v = vec![
+                    ReaderKind::Slice,
+                    ReaderKind::Chunky { pattern: vec![usize::MAX], stops: vec![flen - 2, flen] },
+                    ReaderKind::Chunky { pattern: vec![usize::MAX], stops: vec![flen - 1, flen + 1] },
+                    ReaderKind::Chunky { pattern: vec![1], stops: vec![] },
+                    ReaderKind::BufReader { cap: flen, reads: vec![] },
+                ];
+                for k in [2usize, 3, 4, 8] {
+                    if flen % k == 0 {
+                        v.push(ReaderKind::BufReader { cap: flen / k, reads: vec![] });
+                    }
+                }
+                v
+            } else {
+                vec![ReaderKind::Slice]
+            };
+            let mut r = sut::xz_decompress(&mf.bytes, &readers[0], &io);
+            for rk in &readers[1..] {
+                if !r.verdict.is_err() {
+                    break;
+                }
+                st.eval();
+                st.class("trailing data through a fragmented reader");
+                r = sut::xz_decompress(&mf.bytes, rk, &io);
+            }
             match &r.verdict {
                 Verdict::Err(_) => {}
                 Verdict::Ok => {
